@@ -341,7 +341,7 @@ struct RegHarness : Harness {
         stubs.push("validator callbacks: deterministic harness rules (even / not-equal-k / multiple-of-4-and-<=m)");
         d["real"] = real; d["stubs"] = stubs;
         Json as = Json::arr();
-        std::string common = "tables are generated per run: 1-3 areas (memory or callback backed, RW/RO/WO/skip-defaults/no-write-callback, gaps, adjacency), 0-6 registers over 8 types and 6 constraint kinds, little or big endian; ";
+        std::string common = "tables are generated per run: 1-3 areas (memory or callback backed, RW/RO/WO/skip-defaults/no-write-callback, gaps, adjacency), 0-6 registers over 8 types and 6 constraint kinds, little or big endian (also: the header-macro table, tables of more than 2^16 registers, tables lifted to the top of the address space or spread over it); histories may re-configure the live table (registers removed, one register moved in place inside its area, a re-configuration given up) and run register_init again; a second table may be worked on inside a callback of the first; ";
         if (p == "C01") {
             d["rule"] = common + "ops: set, set_unsafe (correctly typed), get, default with valid and invalid handles (entries, entries+1, huge) and boundary-biased values incl. all float classes; out-of-band storage corruption to reach undecodable content. Non-trivial = at least one typed op on an initialised table; distinct = distinct execution fingerprints";
             as.push("partial claim: the property's exhaustive 16-bit value enumeration is input-space enumeration and is sampled (boundary-biased), not enumerated");
